@@ -616,9 +616,8 @@ def verdict(c):
     return None
 
 
-PRIORITY = ["list-target", "dup-keyword", "fstr-conversion", "uadd", "aug-alias", "aug-complex-target", "aug",
-            "chain-effectful-middle", "dict-effectful-key-and-value", "call-effectful-args-and-kws",
-            "comp-leak-on-exception", "del-tuple-target"]
+# features whose deviation is a recorded known finding today (fixed ones were removed: they must never be excused again)
+PRIORITY = ["aug-alias", "aug-complex-target", "aug", "del-tuple-target"]
 
 
 def classify(c, reason):
